@@ -145,6 +145,9 @@ func (fc *FnCtx) notAllocated(v Val, t types.Type) string {
 		}
 	}
 	sort.Strings(fs)
+	if now, ok := fc.ghost["now"]; ok {
+		fs = append(fs, sx("<=", sx("born", ref), now))
+	}
 	return and(fs...)
 }
 
@@ -496,7 +499,12 @@ func (fc *FnCtx) sliceElemAddr(s Val, elem types.Type, idx string) Val {
 func (fc *FnCtx) newRef(site ssa.Value, name string) string {
 	r := fc.fresh("alloc."+name, sInt)
 	id := fc.allocIDs[site]
-	fc.assumeHere(and(not(eq(r, "0")), eq(sx("allocid", r), num(int64(id))), eq(sx("kind", r), "0")))
+	// allocation clock: the new object is born after every value seen so far
+	fc.ghost = cloneMap(fc.ghost)
+	now := fc.fresh("now", sInt)
+	fc.assumeHere(eq(now, sx("+", fc.ghost["now"], "1")))
+	fc.ghost["now"] = now
+	fc.assumeHere(and(not(eq(r, "0")), eq(sx("allocid", r), num(int64(id))), eq(sx("kind", r), "0"), eq(sx("born", r), now)))
 	return r
 }
 
@@ -1031,6 +1039,7 @@ func (fc *FnCtx) execSelect(x *ssa.Select) {
 		res.Fields = append(res.Fields, v)
 	}
 	fc.vals[x] = res
+	fc.hookAnchorAfter("select", fc.srcText(x.Pos()), x, nil, res, nil)
 }
 
 // ---------------------------------------------------------------------------
